@@ -51,3 +51,164 @@ Example f1_late :
   nth 19 (pinned_run (init 10 1000) f1_history) [] = [(7, 70)] /\
   nth 9 (sp_run 1000 [] f1_history) [] = [(7, 70)].
 Proof. vm_compute. split; reflexivity. Qed.
+
+(* ------------------------------------------------------------------ *)
+(* Seeded change C12-1 (seeded/C12-1): in moveTask, when the new delay is shorter than
+   the wait for the entry's current slot, the re-slotted entry is a struct copy of the
+   old one, so it keeps the old circle / diff instead of starting with 0 / 0. *)
+
+Definition seed1_move_far (s : state) (e : entry) (d : Z) : state :=
+  let steps := d / sint s in
+  let w := wait (sn s) (spos s) (epos e) in
+  if w <=? steps then move_far s e d
+  else
+    mkState (sn s) (sint s) (spos s)
+      (upd (ekey e)
+           (fun e' => mkEntry (ekey e') (evalue e') (pos_of s steps) (ecircle e') (ediff e'))
+           (sents s)).
+
+Definition seed1_step (s : state) (o : op) : state * fired :=
+  match o with
+  | OMove k d =>
+    match lookup k (sents s) with
+    | None => (s, [])
+    | Some e => if d <? sint s then (s, [(k, evalue e)]) else (seed1_move_far s e d, [])
+    end
+  | OSet k v d =>
+    match lookup k (sents s) with
+    | Some e =>
+      let s1 := mkState (sn s) (sint s) (spos s)
+                  (upd k (fun e' => mkEntry (ekey e') v (epos e') (ecircle e') (ediff e')) (sents s)) in
+      (seed1_move_far s1 (mkEntry (ekey e) v (epos e) (ecircle e) (ediff e)) (Z.max d (sint s)), [])
+    | None => step s o
+    end
+  | _ => step s o
+  end.
+
+Fixpoint seed1_run (s : state) (ops : list op) : list fired :=
+  match ops with
+  | [] => []
+  | o :: ops' => let '(s', f) := seed1_step s o in f :: seed1_run s' ops'
+  end.
+
+(* 5 slots: a timer set 12 intervals ahead (circle 2) and moved to 1 interval is not
+   fired at the next tick: the copy still carries circle 2 *)
+Definition seed1_history : list op := [OSet 1 5 120; OMove 1 10; OTick].
+
+Theorem seed_c12_1_refuted :
+  exists ops, seed1_run (init 5 10) ops <> sp_run 10 [] ops.
+Proof. exists seed1_history. vm_compute. discriminate. Qed.
+
+Example seed1_missing :
+  nth 2 (seed1_run (init 5 10) seed1_history) [] = [] /\
+  nth 2 (sp_run 10 [] seed1_history) [] = [(1, 5)].
+Proof. vm_compute. split; reflexivity. Qed.
+
+(* ------------------------------------------------------------------ *)
+(* Seeded change C12-2 (seeded/C12-2): scanAndRunTasks relocates a moved entry (diff > 0)
+   to its final slot without telling the timers map (setTimerPosition dropped), so the
+   map keeps the old slot number and a later MoveTimer computes the wait from it.
+   Expressed in the pointer-level model of Concrete.v. *)
+From GZ Require Import C12.Concrete.
+From Coq Require Import Permutation.
+
+Definition seed2_scan1 (p : Z) (sf : cstate * fired) (id : nat) : cstate * fired :=
+  let '(s, f) := sf in
+  let c := hget (cheap s) id in
+  if cremoved c then
+    (Concrete.mkC (cn s) (cint s) (cpos s) (cheap s) (drop_id p id (cslots s)) (ctimers s), f)
+  else if 0 <? ccircle c then
+    (Concrete.mkC (cn s) (cint s) (cpos s)
+         (upd_nth id (fun c => mkCell (ckey c) (cval c) (ccircle c - 1) (cdiff c) (cremoved c)) (cheap s))
+         (cslots s) (ctimers s), f)
+  else if 0 <? cdiff c then
+    let np := (p + cdiff c) mod cn s in
+    (Concrete.mkC (cn s) (cint s) (cpos s)
+         (upd_nth id (fun c => mkCell (ckey c) (cval c) (ccircle c) 0 (cremoved c)) (cheap s))
+         (push np id (drop_id p id (cslots s)))
+         (ctimers s) (* <- the map is not updated *), f)
+  else
+    (Concrete.mkC (cn s) (cint s) (cpos s) (cheap s) (drop_id p id (cslots s)) (tdel (ckey c) (ctimers s)),
+     f ++ [(ckey c, cval c)]).
+
+Definition seed2_step (s : cstate) (o : op) : cstate * fired :=
+  match o with
+  | OTick =>
+    let p := (cpos s + 1) mod cn s in
+    let s0 := Concrete.mkC (cn s) (cint s) p (cheap s) (cslots s) (ctimers s) in
+    fold_left (seed2_scan1 p) (nth (Z.to_nat p) (cslots s) []) (s0, [])
+  | _ => cstep s o
+  end.
+
+Fixpoint seed2_run (s : cstate) (ops : list op) : list fired :=
+  match ops with
+  | [] => []
+  | o :: ops' => let '(s', f) := seed2_step s o in f :: seed2_run s' ops'
+  end.
+
+(* 4 slots: set 2 intervals, moved to 5 (diff 3), relocated at the second tick; a move to
+   4 intervals then measures the wait from the old slot: the callback runs a tick early *)
+Definition seed2_history : list op :=
+  [OSet 1 5 20; OMove 1 50; OTick; OTick; OMove 1 40; OTick; OTick; OTick; OTick].
+
+Theorem seed_c12_2_refuted :
+  exists ops, ~ Forall2 (@Permutation (Z * Z)) (seed2_run (cinit 4 10) ops) (sp_run 10 [] ops).
+Proof.
+  exists seed2_history. vm_compute. intros H.
+  repeat (match goal with H : Forall2 _ (_ :: _) (_ :: _) |- _ => inversion H; clear H; subst end).
+  match goal with H : Permutation [(1, 5)] [] |- _ => apply Permutation_sym, Permutation_nil in H; discriminate end.
+Qed.
+
+Example seed2_early :
+  nth 7 (seed2_run (cinit 4 10) seed2_history) [] = [(1, 5)] /\
+  nth 8 (sp_run 10 [] seed2_history) [] = [(1, 5)].
+Proof. vm_compute. split; reflexivity. Qed.
+
+(* ------------------------------------------------------------------ *)
+(* Seeded change C12-3 (seeded/C12-3), in the wheel's client collection.Cache: onEvict no
+   longer calls RemoveTimer but queues the key; SetWithExpire removes the queued timers
+   AFTER its own SetTimer.  Cache.Del reaches onEvict too (size-limited cache), so
+   Del k; Set k removes the timer that was just set: the entry never expires.
+   Expressed over the composed model C16/ModelW.v (cache + this wheel). *)
+From GZ Require C16.ModelW.
+Module CW := GZ.C16.ModelW.
+Module CM := GZ.C16.Model.
+
+Definition seed3_state := (CW.cachew * list Z)%type.   (* + the queue c.evicted *)
+
+Definition seed3_queued (c : CM.cache) (k : Z) : list Z :=
+  if (0 <? CM.climit c) && CM.smem k (CM.clru c) then [k] else [].
+
+Definition seed3_del (s : seed3_state) (k : Z) : seed3_state :=
+  let '(cw, q) := s in
+  (CW.mkCW (CM.c_del (CW.cwc cw) k) (remove_task (CW.cww cw) k) false,
+   q ++ seed3_queued (CW.cwc cw) k).
+
+Definition seed3_step (s : seed3_state) (o : CW.xop) : seed3_state :=
+  let '(cw, q) := s in
+  match o with
+  | CW.XSet k v d =>
+    let (c1, ev) := CM.c_set (CW.cwc cw) k v in
+    let w1 := set_task (CW.cww cw) k v d in
+    (CW.mkCW c1 (CW.tw_removes w1 (q ++ ev)) false, [])
+  | CW.XDel k => seed3_del s k
+  | CW.XTick =>
+    let (w1, f) := on_tick (CW.cww cw) in
+    fold_left (fun s kv => seed3_del s (fst kv)) f (CW.mkCW (CW.cwc cw) w1 false, q)
+  | _ => s
+  end.
+
+Definition seed3_history : list CW.xop :=
+  [CW.XSet 1 10 2500; CW.XDel 1; CW.XSet 1 11 2500; CW.XTick; CW.XTick; CW.XTick].
+
+(* after the history the seeded cache still holds key 1 and its wheel holds no timer at
+   all, while the cache as it stands has expired the entry at the second tick *)
+Theorem seed_c12_3_refuted :
+  exists limit ops k,
+    let s := fold_left seed3_step ops (CW.cw_new limit 300 1000 false, []) in
+    let t := CW.cw_final (CW.cw_new limit 300 1000 false) ops in
+    CM.alookup k (CM.cdata (CW.cwc (fst s))) <> None /\ sents (CW.cww (fst s)) = [] /\
+    CM.alookup k (CM.cdata (CW.cwc t)) = None.
+Proof.
+  exists 10, seed3_history, 1. vm_compute. repeat split; discriminate.
+Qed.
